@@ -766,6 +766,27 @@ mods = []
 for k in range(n12):
     open(os.path.join(out, f"p{k}.rs"), "w").write(trait_module(gen_trait(k)))
     mods.append(("c12", f"p{k}"))
+# systematic: every name that generated code may use for a local of its own, as a string-slice argument and as an
+# integer argument, in every method kind (independent of the seed)
+def hygiene_traits(k0):
+    ts = []
+    names = list(HYGIENE)
+    for t in range(0, len(names), 4):
+        methods = []
+        for i, an in enumerate(names[t:t + 4]):
+            for j, (spec, kind) in enumerate([(ARGS[4], "plain"), (ARGS[0], "plain"), (ARGS[4], ["more", "oneway"][i % 2])]):
+                a = dict(spec)
+                a.update(name=an, var="a_" + an, key=an, wire=None)
+                b = dict(ARGS[0])
+                b.update(name="other", var="a_other", key="other", wire=None)
+                methods.append(dict(name=f"h{i}_{j}_{an}", kind=kind, rename=None, style="elided", args=[a, b] if j != 1 else [a], out=OUTS[(i + j) % len(OUTS)]))
+        ts.append(dict(k=k0 + len(ts), iface="org.example.Hygiene", methods=methods))
+    return ts
+
+
+for tr in hygiene_traits(n12):
+    open(os.path.join(out, f"p{tr['k']}.rs"), "w").write(trait_module(tr))
+    mods.append(("c12", f"p{tr['k']}"))
 for k in range(n05):
     open(os.path.join(out, f"e{k}.rs"), "w").write(err_module(gen_errenum(k)))
     mods.append(("c05", f"e{k}"))
